@@ -80,6 +80,8 @@ def err_():
 
 
 def field_of(v, f):
+    if v[0] == "sym":
+        return v            # a part of a symbolic operand is that operand
     if v[0] == "e":
         for k, x in v[3]:
             if k == f:
@@ -125,6 +127,7 @@ class Sim:
         self.forced = forced
         self.depth = depth
         self.lossy = []          # (fn, block, callee): unmodelled calls that may have swallowed the forced value
+        self.records = []        # (what, type, slot0, slot1, function, block): operations observed on symbolic operands
         self.visited = set()     # (function, block) of every block some explored path enters
         self.exit_codes = []     # (fired, value) for every process::exit reached
         self.states = 0
@@ -154,6 +157,8 @@ class Sim:
                         return U
                 elif e[0] == "f":
                     v = field_of(v, e[1])
+                elif v[0] == "sym":
+                    pass
                 else:
                     return U
             return v
@@ -213,7 +218,7 @@ class Sim:
         if pl is not None:
             return self.read(fr, _key(pl), fn)
         if "fn" in op:
-            return ("fnitem", op.get("fn"))
+            return ("fnitem", op.get("fn"), str(op.get("full", op.get("fn"))))
         if "int" in op:
             ty = op.get("ty", "")
             try:
@@ -251,6 +256,9 @@ class Sim:
             a = self.operand(fr, rv["ops"][0], fn)
             b = self.operand(fr, rv["ops"][1], fn)
             op = rv["op"]
+            if a[0] == "sym" or b[0] == "sym":
+                self.records.append((op.replace("WithOverflow", ""), rv.get("ty"), a, b, fn.name))
+                return U
             if rv.get("ty") == "bool":
                 if op == "BitAnd":
                     return b3_and(a, b)
@@ -274,7 +282,7 @@ class Sim:
                 return ("i", 1 if v[1] else 0)
             if v[0] == "i":
                 return v
-            if v[0] in ("r", "c", "it"):
+            if v[0] in ("r", "c", "it", "fnitem", "sym"):
                 return v
             return U
         if k == "discr":
@@ -388,11 +396,19 @@ class Sim:
                 (c.startswith("ucg::") or c.startswith("ucglib::") or c.startswith("<ucg")):
             cf = self.F.fns[c]
             if self.site is None or not self._reaches_site(c):
-                # references into our frame cannot be followed into the callee: pass them as unknown
+                # references into our frame cannot be followed into the callee: the pointee's current value goes along instead
+                # (what the callee writes through a &mut is forgotten afterwards: _kill_mut_args)
                 cargs = [a if a[0] not in ("r",) else U for a in args]
+                cinit = {}
+                for i_, a in enumerate(args):
+                    if a[0] == "r":
+                        pv = self.read(fr, a[1], fn)
+                        if pv != U:
+                            cinit[(i_ + 1, ("*",))] = pv
+                            cargs[i_] = ("r", (i_ + 1, ("*",)))     # a reference whose pointee lives in the callee's own frame
                 sub = self._sub(depth - 1)
                 try:
-                    res = sub.run(cf, cargs, fired=fd)
+                    res = sub.run(cf, cargs, fired=fd, init=cinit)
                 except RecursionError:
                     res = None
                 self._merge(sub)
@@ -411,9 +427,11 @@ class Sim:
         return self.site is not None and c == self.site[0]
 
     def _sub(self, depth):
-        sub = Sim(self.F, site=self.site, forced=self.forced, depth=depth, tainted_by=self.tainted_by, force_all=self.force_all,
-                  opaque=self.opaque, watch=self.watch)
+        sub = type(self)(self.F, site=self.site, forced=self.forced, depth=depth, tainted_by=self.tainted_by, force_all=self.force_all,
+                         opaque=self.opaque, watch=self.watch)
         sub.states = self.states
+        if hasattr(self, "watch_calls"):
+            sub.watch_calls = self.watch_calls
         return sub
 
     def _merge(self, sub):
@@ -421,6 +439,7 @@ class Sim:
         self.exit_codes += sub.exit_codes
         self.lossy += sub.lossy
         self.visited |= sub.visited
+        self.records += sub.records
 
     def _carries_site(self, vals):
         """does a value handed to an unmodelled function contain a closure that is / contains the site (or is watched)?"""
@@ -463,20 +482,33 @@ class Sim:
         if depth <= 0:
             return None
         sub = self._sub(depth - 1)
-        # closure bodies read captures as (*_1).i or _1.i : install both
-        res = sub.run_closure(cf, env_val, list(cargs), fd)
+        # arguments that are references into the calling frame: the pointee's value goes along (as for evaluated functions)
+        cargs2, pointees = [], {}
+        for i_, a in enumerate(cargs):
+            if a[0] == "r":
+                pv = self.read(fr, a[1], parent)
+                if pv != U:
+                    pointees[i_] = pv
+                    cargs2.append(("r", (i_ + 2, ("*",))))      # a reference whose pointee lives in the closure's own frame
+                else:
+                    cargs2.append(U)
+            else:
+                cargs2.append(a)
+        res = sub.run_closure(cf, env_val, cargs2, fd, pointees)
         self._merge(sub)
         for nfd, v, _ in res:
             out.add((nfd, v))
         return out
 
-    def run_closure(self, cf, env_val, cargs, fired):
+    def run_closure(self, cf, env_val, cargs, fired, pointees=None):
         # `&self` closures: local 1 is a reference to the environment; emulate by storing the aggregate under (1, ("*",)) too
         fr0 = Frame()
         fr0.env[(1, ())] = env_val
         for i, v in enumerate(cargs):
             if v != U:
                 fr0.env[(i + 2, ())] = v
+        for i, pv in (pointees or {}).items():
+            fr0.env[(i + 2, ("*",))] = pv
         return self._run_from(cf, fr0, fired)
 
     def _run_from(self, fn, fr0, fired):
